@@ -1,7 +1,7 @@
 /-
 C01 — line-protocol driver (core only).
   open <i> / parts <n> / write … / flush        (as C02)               → ok / ack
-  crash vis=<g>:<o|u>,… wal=<p>:<id>.<id>|… torn=<id|->                → rows …
+  crash at=<k> vis=<g>:<o|u>:<mst>,… wal=<p>:<id>.<id>|… torn=<id|->   → rows …
 -/
 import OG.C01.Model
 import OG.C02.Driver
@@ -9,13 +9,14 @@ import OG.C02.Driver
 namespace OG.C01
 open OG.C02
 
-def parseVis (s : String) : Option (List (Nat × Bool)) :=
+def parseVis (s : String) : Option (List (Nat × Bool × Nat)) :=
   if s == "" then some [] else
   (s.splitOn ",").mapM fun x =>
     match x.splitOn ":" with
-    | [g, k] => do
+    | [g, k, m] => do
       let g ← g.toNat?
-      if k == "o" then some (g, true) else if k == "u" then some (g, false) else none
+      let m ← m.toNat?
+      if k == "o" then some (g, true, m) else if k == "u" then some (g, false, m) else none
     | _ => none
 
 def parseWal (s : String) : Option (List (Nat × Nat)) :=
